@@ -224,6 +224,9 @@ def c20_jobs(tier):
                 jobs.append(job(ROOT, "HProtectFrame", [s, role, 0, k, 0]))
             jobs.append(job(ROOT, "HProtectFrame", [s, role, 0, 0]))
             jobs.append(job(ROOT, "HProtectFrame", [s, role, 0, 33, 48, 0]))
+    # a decoded EAP-AKA' packet extended through the API: same octets under every map order
+    for r, a1, a2 in ((0, 2, 4), (3, 6, 1), (5, 4, 2)):
+        jobs.append(job(EAP, "HMarshalDeterministicDecoded", [r, a1, a2], map_orders=True))
     return jobs
 
 
